@@ -582,8 +582,8 @@ func (w *tworld) checkBlock(h uint32, letter string, parent *types.Block, obs *b
 		r.Outcome(fmt.Sprintf("T %s txs=%d fees=%s issued=%s refunds=%s paid=%d", hc, len(b.Txs), fees, issued, strings.Join(refundNames, "+"), len(paid)))
 	}
 	if w.verbose {
-		w.trace = append(w.trace, fmt.Sprintf("h=%d %-24s [%s] miner=%s packaged=%v discards=%d accepted=%v %s fees=%s issued=%s refunds=%v deputies-next=%s\n      deltas: %s",
-			h, hc, letter, trole(b.MinerAddress()), packaged, obs.discards, obs.accepted, obs.rejected, fees, issued, refundNames, depNames(b.DeputyNodes), tfmtDeltas(delta)))
+		w.trace = append(w.trace, fmt.Sprintf("h=%d %s %-24s [%s] miner=%s packaged=%v discards=%d accepted=%v %s fees=%s issued=%s refunds=%v deputies-next=%s\n      deltas: %s",
+			h, b.Hash().Prefix(), hc, letter, trole(b.MinerAddress()), packaged, obs.discards, obs.accepted, obs.rejected, fees, issued, refundNames, depNames(b.DeputyNodes), tfmtDeltas(delta)))
 	}
 }
 
